@@ -307,7 +307,7 @@ def main(modname, tier, seed=None):
         if m:
             state['known'][k] = m
     for k, m in sorted(state['known'].items()):
-        print('KNOWN-FINDING: property=%s %s' % (prop.ID, m['what']))
+        print('KNOWN-FINDING: property=%s %s' % (m.get('property', prop.ID), m['what']))
     # distinct violations by signature
     seen = set()
     vout = []
